@@ -39,6 +39,12 @@ from vf import core
 
 ND4 = {"__nd__": [0.5, 1.0, 2.0, 4.0]}
 ND0 = {"__nd__": 0.25}
+# keepdims-shaped post-training scales (what `q.scale.numpy()` of an auto_po2
+# quantizer looks like): per row / input channel (4,1), per output channel
+# (1,4), per channel of axis 2 of a rank-4 kernel (1,1,4,1)
+ND41 = {"__nd__": [[0.5], [1.0], [2.0], [4.0]]}
+ND14 = {"__nd__": [[0.5, 1.0, 2.0, 4.0]]}
+ND1141 = {"__nd__": [[[[0.5], [1.0], [2.0], [4.0]]]]}
 TF0 = {"__tf__": 2.0}
 
 ALPHAS = [None, "auto", "auto_po2", 2.0]
@@ -93,7 +99,7 @@ SPEC = {
         ("keep_negative", _const([True, False])),
         ("use_stochastic_rounding", _const([False, True])),
         ("scale_axis", _const([None, 0])),
-        ("qnoise_factor", _const([1.0, 0.5])),
+        ("qnoise_factor", _const([1.0, 0.5, 0.0])),
         ("var_name", _const([None, "qv"])),
         ("use_variables", _const([False, True])),
     ],
@@ -105,7 +111,7 @@ SPEC = {
         ("symmetric", _const([0, 1])),
         ("keep_negative", _const([True, False])),
         ("use_stochastic_rounding", _const([False, True])),
-        ("qnoise_factor", _const([1.0, 0.5])),
+        ("qnoise_factor", _const([1.0, 0.5, 0.0])),
         ("var_name", _const([None, "qv"])),
         ("use_ste", _const([True, False])),
         ("use_variables", _const([False, True])),
@@ -113,7 +119,8 @@ SPEC = {
         ("min_po2_exponent", _po2_dom([None, -2])),
         ("max_po2_exponent", _max_po2_dom),
         ("post_training_scale",
-         lambda full: [None, ND0, ND4] if _is_str(full.get("alpha")) else [None]),
+         lambda full: ([None, ND0, ND4, ND41, ND14, ND1141]
+                       if _is_str(full.get("alpha")) else [None])),
     ],
     "bernoulli": [
         ("alpha", _const(ALPHAS)),
@@ -158,7 +165,7 @@ SPEC = {
         ("use_stochastic_rounding", _const([False, True])),
         ("relu_upper_bound", _const([None, 0.5])),
         ("is_quantized_clip", _const([True, False])),
-        ("qnoise_factor", _const([1.0, 0.5])),
+        ("qnoise_factor", _const([1.0, 0.5, 0.0])),
         ("var_name", _const([None, "qv"])),
         ("use_ste", _const([True, False])),
         ("use_variables", _const([False, True])),
@@ -187,7 +194,7 @@ SPEC = {
         ("use_stochastic_rounding", _const([False, True])),
         ("quadratic_approximation", _const([False, True])),
         ("log2_rounding", _const(["rnd", "floor"])),
-        ("qnoise_factor", _const([1.0, 0.5])),
+        ("qnoise_factor", _const([1.0, 0.5, 0.0])),
         ("var_name", _const([None, "qv"])),
         ("use_ste", _const([True, False])),
         ("use_variables", _const([False, True])),
@@ -199,7 +206,7 @@ SPEC = {
         ("use_stochastic_rounding", _const([False, True])),
         ("quadratic_approximation", _const([False, True])),
         ("log2_rounding", _const(["rnd", "floor"])),
-        ("qnoise_factor", _const([1.0, 0.5])),
+        ("qnoise_factor", _const([1.0, 0.5, 0.0])),
         ("var_name", _const([None, "qv"])),
         ("use_ste", _const([True, False])),
         ("use_variables", _const([False, True])),
@@ -211,7 +218,7 @@ SPEC = {
         ("integer", _const([0, 1, 2])),
         ("symmetric", _const([0, 1])),
         ("use_stochastic_rounding", _const([False, True])),
-        ("qnoise_factor", _const([1.0, 0.5])),
+        ("qnoise_factor", _const([1.0, 0.5, 0.0])),
         ("var_name", _const([None, "qv"])),
         ("use_variables", _const([False, True])),
         ("relu_shift", _const([3, 2])),
@@ -337,8 +344,21 @@ def textable(v):
   return not isinstance(v, dict)
 
 
-def build(cls, kw):
+def build(cls, kw, qn_update=False):
+  """Constructs the quantizer.  With qn_update the qnoise_factor of kw is not
+  passed to the constructor but set afterwards through the documented
+  update_qnoise_factor() (after a first call when use_variables made it a
+  tf.Variable) - the resulting quantizer must be the same function."""
   from qkeras import quantizers as Q  # pylint: disable=g-import-not-at-top
+  if qn_update:
+    import tensorflow as tf  # pylint: disable=g-import-not-at-top
+    q = getattr(Q, cls)(**{k: decode(v) for k, v in kw.items()
+                           if k != "qnoise_factor"})
+    if kw.get("use_variables"):
+      q(tf.constant([0.5, -0.25], dtype=tf.float32))
+    if "qnoise_factor" in kw:
+      q.update_qnoise_factor(kw["qnoise_factor"])
+    return q
   return getattr(Q, cls)(**{k: decode(v) for k, v in kw.items()})
 
 
